@@ -46,6 +46,10 @@ func LoadNetwork(r io.Reader, encoding SaveEncoding) (*Network, error) {
 }
 
 type loader struct {
+	// entity ids met so far: the model registers entities by id,
+	// two entities with the same id cannot live in one network
+	entityIDs map[string]struct{}
+
 	refCANIDBuilders map[string]*CANIDBuilder
 	refNodes         map[string]*Node
 	refSigTypes      map[string]*SignalType
@@ -56,6 +60,8 @@ type loader struct {
 
 func newLoader() *loader {
 	return &loader{
+		entityIDs: make(map[string]struct{}),
+
 		refCANIDBuilders: make(map[string]*CANIDBuilder),
 		refNodes:         make(map[string]*Node),
 		refSigTypes:      make(map[string]*SignalType),
@@ -69,6 +75,14 @@ func (l *loader) loadEntity(pEnt *acmelibv1.Entity, entKind EntityKind) (*entity
 	if pEnt == nil {
 		return nil, &ErrIsRequired{Item: entKind.String() + " entity"}
 	}
+
+	if _, ok := l.entityIDs[pEnt.EntityId]; ok {
+		return nil, &EntityIDError{
+			EntityID: EntityID(pEnt.EntityId),
+			Err:      ErrIsDuplicated,
+		}
+	}
+	l.entityIDs[pEnt.EntityId] = struct{}{}
 
 	var cTime time.Time
 	if pEnt.CreateTime.IsValid() {
@@ -534,11 +548,17 @@ func (l *loader) loadMultiplexerSignal(baseSig *signal, pMuxSig *acmelibv1.Multi
 
 	muxedSignals := make(map[string]Signal)
 	for _, pMuxedSig := range pMuxSig.Signals {
+		// a signal held by more than one group is saved once per group
+		muxedSigEntID := pMuxedSig.GetEntity().GetEntityId()
+		if _, ok := muxedSignals[muxedSigEntID]; ok {
+			continue
+		}
+
 		sig, err := l.loadSignal(pMuxedSig)
 		if err != nil {
 			return nil, err
 		}
-		muxedSignals[pMuxedSig.Entity.EntityId] = sig
+		muxedSignals[muxedSigEntID] = sig
 	}
 
 	fixedSignals := make(map[string]struct{})
